@@ -87,6 +87,38 @@ def ob_update_volumes(h, rec, K):
     h.prove("C01:volume-upsert-preserves-conservation", cons + [net(pre, some_asset) == 0, balanced], net(post, some_asset) == 0, model_vars=[some_asset], detail=rec["sql"][-1][:300], dump=dump_tables({"before": pre, "after": post}))
 
 
+def ob_get_balances(h, rec, K):
+    """GetBalances: WITH ins AS (INSERT zero rows ON CONFLICT DO NOTHING) SELECT ... FOR UPDATE: the rows read (and
+    locked) are this ledger's existing rows of the requested (account, asset) pairs, carrying the stored volumes, and
+    no other row — in particular no row of another ledger"""
+    t, cons, P, params, amt = setup(K)
+    db = DB(t, params=params, jsonkeys=sqltables.JSONKEYS)
+    ex = dml.Exec(db)
+    try:
+        ret = ex.run(sqlsym.parse(rec["sql"][-1]))
+    except sqlsym.Unsupported as e:
+        h.inconclusive.append(f"GetBalances: outside the SQL subset: {e}")
+        return
+    pre = t["accounts_volumes"]
+    L = P["L"]
+    n = [c[1] for c in ret.cols]
+    goals = []
+    for acc in (P["acc1"], P["acc2"]):
+        hit = [z3.And(mine(pre, r, L), col(pre, r, "accounts_address").z == acc, col(pre, r, "asset").z == P["ast1"]) for r in pre.rows]
+        stored_in = z3.Sum([z3.If(x, col(pre, r, "input").z, 0) for x, r in zip(hit, pre.rows)])
+        stored_out = z3.Sum([z3.If(x, col(pre, r, "output").z, 0) for x, r in zip(hit, pre.rows)])
+        rows = [z3.And(o.guard, o.vals[n.index("accounts_address")].z == acc, o.vals[n.index("asset")].z == P["ast1"]) for o in ret.rows]
+        # (the zero row the CTE inserts for a pair never used is not visible to the SELECT of the same statement:
+        #  such a pair yields no row, which the Go code reads as zero volumes)
+        goals.append(z3.Sum([z3.If(x, 1, 0) for x in rows]) == z3.If(z3.Or(*hit), 1, 0))
+        for x, o in zip(rows, ret.rows):
+            goals.append(z3.Implies(x, z3.And(o.vals[n.index("input")].z == stored_in, o.vals[n.index("output")].z == stored_out)))
+    for o in ret.rows:
+        goals.append(z3.Implies(o.guard, z3.And(o.vals[n.index("asset")].z == P["ast1"], z3.Or(o.vals[n.index("accounts_address")].z == P["acc1"], o.vals[n.index("accounts_address")].z == P["acc2"]))))
+    h.encoded.append("GetBalances")
+    h.prove("C06:balance-read-returns-exactly-the-requested-pairs-of-this-ledger", cons, z3.And(*goals), model_vars=[L], detail=rec["sql"][-1][:700], dump=dump_tables({"accounts_volumes": pre}))
+
+
 def json_of(v):
     return v
 
@@ -251,6 +283,8 @@ def run(repo, tier, out, props):
     h = Harness("WRITES")
     for rec in pick(recs, "UpdateVolumes", features="default", alone="false"):
         ob_update_volumes(h, rec, K)
+    for rec in pick(recs, "GetBalances", features="default", alone="false"):
+        ob_get_balances(h, rec, K)
     ob_account_metadata(h, recs, K)
     ob_tx_updates(h, recs, K)
     ob_upsert_accounts(h, recs, K)
